@@ -213,7 +213,25 @@ func init() {
 			}
 			return matchAt(s.B, p.B, len(s.B)-len(p.B)), true
 		}
-		panic(engineErr("HasSuffix on %s", s.Key()))
+		// structured strings: compare token-wise from the end
+		st, pt := tokens(s), tokens(p)
+		if len(pt) > len(st) {
+			return tFalse, true
+		}
+		var cs []*Term
+		for i := 1; i <= len(pt); i++ {
+			a, b := st[len(st)-i], pt[len(pt)-i]
+			eq, known := tokEq(a, b)
+			if !known {
+				cs = append(cs, Eq(a.b, b.b))
+				continue
+			}
+			if !eq {
+				return tFalse, true
+			}
+		}
+		in.summUsed["assumption: opaque parts match only themselves in substring search"] = true
+		return And(cs...), true
 	})
 	reg("strings.Split", func(in *Interp, fn *ssa.Function, args []value) (value, bool) {
 		sep := args[1].(*Str).MustConcrete("separator")
